@@ -14,6 +14,9 @@ import concdrv  # noqa: E402
 
 def main():
     kind, path, op, pause_at = sys.argv[1], sys.argv[2], json.loads(sys.argv[3]), int(sys.argv[4])
+    import guard
+    guard.allow(path)
+    guard.install(tmp_in=os.path.dirname(os.path.abspath(path)))
     concdrv.install()
     store = concdrv.open_store(kind, path)
     points = []
@@ -28,6 +31,11 @@ def main():
     concdrv._tls.ctl = ctl
     result = concdrv.run_op(store, op)
     print(json.dumps({"ev": "done", "result": result, "points": points}), flush=True)
+    try:
+        import guard
+        guard.cleanup()
+    except Exception:
+        pass
     os._exit(0)
 
 
